@@ -13,6 +13,9 @@ const (
 	nonStrickyChars = "(){}[],:"
 )
 
+// ErrUnterminatedString is the lexer error for a string literal that reaches the end of input.
+var ErrUnterminatedString = errors.New("Lexer: unterminated string literal")
+
 type str struct {
 	next   stateFunc // next state function
 	doEmit bool      // lexer emits token
@@ -113,7 +116,7 @@ func stringLit(c rune) str {
 		return str{next: escapeStringLit}
 
 	case c == EOF:
-		return str{err: errors.New("Lexer: unterminated string literal")}
+		return str{err: ErrUnterminatedString}
 
 	default:
 		return str{next: stringLit}
@@ -122,7 +125,7 @@ func stringLit(c rune) str {
 
 func escapeStringLit(c rune) str {
 	if c == EOF {
-		return str{err: errors.New("Lexer: unterminated string literal")}
+		return str{err: ErrUnterminatedString}
 	}
 	return str{next: stringLit}
 }
